@@ -79,6 +79,9 @@ class Operands:
                               lambda: [D.align([x, x.take_axis([], axis=d, indexing='position')], sort=srt, join=j) for d in x.dims for srt in (True, False) for j in ('outer', 'inner')],
                               lambda: [D.align([x.take_axis([], axis=d, indexing='position'), x], sort=True) for d in x.dims],
                               lambda: D.stack([x, x.ix[::-1]], axis='stacked', keys=[1, 2], align=True, sort=True) if x.ndim else None,
+                              # reindexing onto labels of the same length that sit at their own positions, one of them absent
+                              lambda: [x.reindex_axis([l if j != k else (l - 0.25 if not isinstance(l, str) else l + '_') for j, l in enumerate(ax.values.tolist())], axis=ax.name, **kw)
+                                       for ax in x.axes for k in range(ax.size) for kw in ({}, {'method': 'left'})],
                               lambda: D.concatenate([x, x], axis=0, align=True, sort=True) if x.ndim > 1 else None):
                         try: f()
                         except Exception: pass
